@@ -201,7 +201,7 @@ def run_program(fa, recipe, cfg, X, Y):
             e = proggen.build(fa, ctx, recipe, syms)
         except Exception as ex:
             return dict(status="not-constructible", exc=type(ex).__name__)
-        signal.setitimer(signal.ITIMER_REAL, 5.0)
+        signal.setitimer(signal.ITIMER_PROF, 5.0)
         try:
             r = e.rewrite(fa.rewrite)
         except Timeout:
@@ -211,7 +211,7 @@ def run_program(fa, recipe, cfg, X, Y):
             where = [f.name for f in tb if f.filename.endswith("rewrite.py") or f.filename.endswith("expr.py")]
             return dict(status="raises", exc=type(ex).__name__, where=(where[-1] if where else "?"), msg=str(ex)[:200])
         finally:
-            signal.setitimer(signal.ITIMER_REAL, 0)
+            signal.setitimer(signal.ITIMER_PROF, 0)
     changed = r is not e
     args = [syms["x"], syms["y"]]
     try:
@@ -437,7 +437,7 @@ def programs(scope, size, level):
 
 def w_scope(task):
     fa = setup_repo_import()
-    signal.signal(signal.SIGALRM, _alarm)
+    signal.signal(signal.SIGPROF, _alarm)
     part = new_part()
     cfg = task["cfg"]
     tname, t = CFG[cfg]
@@ -457,7 +457,7 @@ def w_scope(task):
             best = minimal_raising(fa, recipe, cfg, X, Y, res)
             add_violation(part, raise_sig(best, cfg, res), f"rewriting {proggen_str(best)} [{cfg}] raised {res['exc']}: {res['msg']} (minimal sub-tree of {proggen_str(recipe)})", {"recipe": repr(best), "cfg": cfg})
         elif st == "no-termination":
-            add_violation(part, f"rewrite-does-not-terminate:{cfg}", f"rewriting {proggen_str(recipe)} [{cfg}] did not reach a fix-point within 5 s", case)
+            add_violation(part, f"rewrite-does-not-terminate:{cfg}", f"rewriting {proggen_str(recipe)} [{cfg}] did not reach a fix-point within 5 s of CPU time", case)
         elif st in ("mismatch", "exact-mismatch"):
             best, sig, r2 = classify(fa, recipe, cfg, X, Y, res)
             add_violation(part, f"{cfg}:{sig}", f"{proggen_str(best)} [{cfg}] at x={r2['at'][0]} y={r2['at'][1]}: original evaluates to {r2['got'][0]}, rewritten to {r2['got'][1]} (minimal sub-tree of {proggen_str(recipe)})", {"recipe": repr(best), "cfg": cfg})
@@ -572,7 +572,7 @@ CGRID = [-2.0, -1.0, -0.5, -0.0, 0.0, 1.0 / 3.0, 0.5, 1.0, 2.0]
 def w_complex(task):
     """scope Z: the rewriter on graphs with a complex-typed symbol: terminates, does not raise, same value on the grid."""
     fa = setup_repo_import()
-    signal.signal(signal.SIGALRM, _alarm)
+    signal.signal(signal.SIGPROF, _alarm)
     part = new_part()
     ctname, ftname, ft = task["ctype"], task["ftype"], {"float32": np.float32, "float": np.float64}[task["ftype"]]
     g = np.array(CGRID, dtype=ft)
@@ -591,11 +591,11 @@ def w_complex(task):
             except Exception as ex:
                 bump(part, "status_not-constructible")
                 continue
-            signal.setitimer(signal.ITIMER_REAL, 5.0)
+            signal.setitimer(signal.ITIMER_PROF, 5.0)
             try:
                 r = e.rewrite(fa.rewrite)
             except Timeout:
-                add_violation(part, f"rewrite-does-not-terminate:{ctname}", f"rewriting {proggen_str(recipe)} [z:{ctname}, x:{ftname}] did not reach a fix-point within 5 s", case)
+                add_violation(part, f"rewrite-does-not-terminate:{ctname}", f"rewriting {proggen_str(recipe)} [z:{ctname}, x:{ftname}] did not reach a fix-point within 5 s of CPU time", case)
                 continue
             except Exception as ex:
                 tb = traceback.extract_tb(ex.__traceback__)
@@ -603,7 +603,7 @@ def w_complex(task):
                 add_violation(part, f"rewrite-raises:{type(ex).__name__}:{where[-1] if where else '?'}:complex-symbol", f"rewriting {proggen_str(recipe)} [z:{ctname}, x:{ftname}] raised {type(ex).__name__}: {str(ex)[:200]}", case)
                 continue
             finally:
-                signal.setitimer(signal.ITIMER_REAL, 0)
+                signal.setitimer(signal.ITIMER_PROF, 0)
         if r is e:
             bump(part, "status_unchanged")
             continue
@@ -744,7 +744,7 @@ def run(run):
 
 def replay(case):
     fa = setup_repo_import()
-    signal.signal(signal.SIGALRM, _alarm)
+    signal.signal(signal.SIGPROF, _alarm)
     part = new_part()
     if case.get("scope") == "Z":
         progs = complex_programs(1)
